@@ -233,17 +233,17 @@ def replay_derive(ctx, sc, k):
 
 def n_cases(ctx, flow, curve=None):
     if flow == 'export':
-        ks = [-1, -2] + list(range(3 if ctx.quick else 50))
-        return ks if curve != 'bl' else ks[:4 if ctx.quick else 22]
+        ks = [-1, -2] + list(range(3 if ctx.quick else 200))
+        return ks if curve != 'bl' else ks[:4 if ctx.quick else 42]
     if flow == 'mnemonic':
-        return range(4 if ctx.quick else 60)
-    return range(1 if ctx.quick else (3 if curve == 'bl' else 8))
+        return range(4 if ctx.quick else 200)
+    return range(1 if ctx.quick else (6 if curve == 'bl' else 20))
 
 
 def run(ctx):
     ctx.rule = ('Leg A: KeyFlow flows "export" (curve x export option x import passphrase) and "mnemonic" (8 lengths x known words x checksum x input form, '
-                'then curve x two (email, passphrase) pairs); Leg B: every completed scenario x K seeded cases (export: smallest and largest valid secret + 3 / 50 '
-                'seeded; mnemonic 4 / 60; derivations 1 / 8, BLS 3): public key and key hash against the independent implementation, export, import, HASH_KEY, '
+                'then curve x two (email, passphrase) pairs); Leg B: every completed scenario x K seeded cases (export: smallest and largest valid secret + 3 / 200 '
+                'seeded, BLS 2 / 40; mnemonic 4 / 200; derivations 1 / 20, BLS 6): public key and key hash against the independent implementation, export, import, HASH_KEY, '
                 'from_mnemonic acceptance and two derivations; every evaluated case is non-trivial (real keys, encodings and mnemonics are produced and compared)')
     ctx.assumptions = ['symbolic cryptography in the spec; interpreted in replay by `cryptography` (Ed25519 seed -> public key, EC derive_private_key), hashlib Blake2b-160 / sha256 (BIP-39 checksum), own Base58Check with the Tezos prefix bytes',
                        'BLS public keys are recomputed with py_ecc curve arithmetic and an own G1 serialiser (little-endian scalar): not independent of pytezos\' library',
